@@ -161,6 +161,26 @@ def run(ctx):
                                "simulated_behaviours": len(scheds) - len(attacks), "attack_schedules": [a["name"] for a in attacks],
                                "driver": stats, "events_validated_after_prefix_dedupe": v["events"]})
 
+    # ---------------- D. attack schedules of the library for configurations not run above (quick rotates the 3+1 configs) ----
+    done = {(tuple(pw), bi) for (_t, pw, bi, _l) in cfgs3}
+    groups = {}
+    for a in load_attacks():
+        groups.setdefault((tuple(a["powers"]), tuple(a["byz"])), []).append(a)
+    for (powers, byzl), lst in sorted(groups.items()):
+        powers, byzl = list(powers), list(byzl)
+        infoL = cc.run_driver(ctx, binp, {"mode": "info", "powers": powers, "byz": [], "maxround": 14}, "infoL")
+        if (tuple(powers), infoL["names"].index(byzl[0])) in done:
+            continue
+        scheds = [{"id": 100000 + k, "steps": a["steps"]} for k, a in enumerate(lst)]
+        tag = "lib" + "".join(str(x) for x in powers) + byzl[0]
+        inp = {"mode": "replay", "dups": 5, "powers": powers, "byz": byzl, "maxround": 9, "scheds": scheds, "synctail": True, "byzafter": True,
+               "random": 0}
+        rows, stats = cc.run_driver(ctx, binp, inp, tag)
+        v = cc.validate(ctx, rows, infoL, byzl, 9, tag, dedupe=True)
+        account(v, rows, "attack library " + tag)
+        cov["configs"].append({"config": "powers %s, faulty %s: attack library only" % (powers, byzl), "exhaustive": False,
+                               "attack_schedules": [a["name"] for a in lst], "driver": stats, "events_validated_after_prefix_dedupe": v["events"]})
+
     coverage = {
         "states": totals["states"], "transitions": totals["transitions"],
         "traces_validated_against_impl": totals["runs"],
